@@ -59,7 +59,7 @@ Lemma pp_pending P i c s : pending i c (prepend P s) = prepend P (pending i c s)
 Proof.
   unfold pending. rewrite pp_in_diff_header. destruct (negb (in_diff_header s)); [reflexivity|].
   rewrite pp_emit. autorewrite with pp.
-  destruct (negb (is_empty (mode_info (emit s)))); [apply pp_wfh|].
+  destruct (negb (is_empty (mode_info (emit s)))); [rewrite pp_wfh; autorewrite with pp; reflexivity|].
   destruct (negb (color_only c) && _); [|reflexivity].
   rewrite pp_describe, pp_wfh. autorewrite with pp. reflexivity.
 Qed.
@@ -214,7 +214,9 @@ Proof.
   change (mode_info (emit s)) with (mode_info s).
   change (handled (emit s)) with (handled s). change (cur (emit s)) with (cur s).
   destruct (negb (is_empty (mode_info s))).
-  - rewrite all_items_wfh by assumption. rewrite all_items_emit. reflexivity.
+  - change (all_items (set_handled (write_file_header i (name_of_diff_line (diff_line (emit s))) (emit s)) (cur s)))
+      with (all_items (write_file_header i (name_of_diff_line (diff_line (emit s))) (emit s))).
+    rewrite all_items_wfh by assumption. rewrite all_items_emit. reflexivity.
   - destruct (negb (color_only c) && negb (opt_text_pair_eqb (handled s) (cur s))).
     + change (all_items (set_handled (write_file_header i (describe (emit s)) (emit s)) (cur s)))
         with (all_items (write_file_header i (describe (emit s)) (emit s))).
